@@ -132,7 +132,7 @@ private theorem eff_facts {n : Int} {m : Nat} (h : ¬ (effLen 16 n) > (m : Int))
     have := int_in_range (l := n) (m := m) (by omega) h hm
     exact ⟨this.1, this.2.1, this.2.2, rfl⟩
 
-private theorem eff_big {n : Int} {m : Nat} (h : (effLen 16 n) > (m : Int)) :
+private theorem eff_big {n : Int} {m : Nat} (_h : (effLen 16 n) > (m : Int)) :
     (effLen 16 n).toNat = eff n := by
   unfold eff effLen; split <;> rfl
 
@@ -337,6 +337,21 @@ theorem get_ok_items_current (ops : List Op) (h : itemFixApplied = true ∨ Puts
   · cases hf : itemFixApplied with
     | true => exact get_ok_items_fixed ops
     | false => exact get_ok_items_partial ops h
+
+/-- **`get_ok`** — the property for the three pools as currently modelled: after any sequence of
+operations (arbitrary puts, any `sync.Pool` behaviour) every obtained buffer is large enough and
+empty; for item buffers under the stated hypothesis (or none once `itemFixApplied`). -/
+theorem get_ok (k : Kind) (ops : List Op)
+    (h : k = .items → itemFixApplied = true ∨ PutsTailClean ops) :
+    ∀ x ∈ (run k Pools.empty ops).2,
+      match k with
+      | .bytes => 0 ≤ x.1 → GoodBytes x.1 x.2
+      | .slices => GoodSlices x.1 x.2
+      | .items => GoodItems x.1 x.2 := by
+  cases k with
+  | bytes => exact get_ok_bytes itemFixApplied ops
+  | slices => exact get_ok_slices itemFixApplied ops
+  | items => exact get_ok_items_current ops (h rfl)
 
 /-- in none of the three pools does an in-range request or any `put` panic (index out of range,
 slice bounds): every `get` result is a buffer. -/
